@@ -407,7 +407,19 @@ class Gen:
                 self.feat("bits:enum")
 
     # -- arrays
-    def length_expr(self, int_names):
+    def length_expr(self, int_names, fields=None):
+        text = self._length_expr(int_names)
+        if fields is not None:
+            # fields that supply a length get small values when inputs are built from model values
+            import re as _re
+
+            used = set(_re.findall(r"[A-Za-z_][A-Za-z0-9_]*", text))
+            for f in fields:
+                if f["name"] in used and f["t"]["k"] in ("int", "enum") and not f.get("bits"):
+                    f["len_src"] = True
+        return text
+
+    def _length_expr(self, int_names):
         r = self.r
         a = r.choice(int_names)
         forms = [a, f"{a} + 1", f"{a} * 2", f"{a} - 1", f"({a} & 3) + 1", f"({a} & 7) % 3", f"{a} >> 1", f"{a} | 1",
@@ -422,14 +434,14 @@ class Gen:
             forms += [f"sizeof(uint16) * {a}", f"{a} + sizeof(uint8)"] * 2
         return r.choice(forms)
 
-    def array_of(self, elem, int_names, allow_dyn, last_top):
+    def array_of(self, elem, int_names, allow_dyn, last_top, fields=None):
         r = self.r
         o = self.o
         x = r.random()
         ek = elem["k"]
         if allow_dyn and o["dyn"] and x < 0.22 and int_names:
             self.feat("arr:expr")
-            return N_array(elem, L_expr(self.length_expr(int_names)))
+            return N_array(elem, L_expr(self.length_expr(int_names, fields)))
         if allow_dyn and o["dyn"] and x < 0.36 and (
             ek in ("int", "char", "wchar", "leb", "enum") or (ek == "struct" and elem.get("all_int"))
         ):
@@ -504,7 +516,7 @@ class Gen:
             elif x < 0.44:
                 elem = self.scalar_node()
                 arr = self.array_of(elem, int_names, allow_dyn and not union or (allow_dyn and o["dyn_unions"]),
-                                    last_top)
+                                    last_top, fields)
                 fields.append(F(fname, arr))
             elif x < 0.54 and o["bits"] and not union:
                 self.bit_run(fields, int_names)
@@ -567,7 +579,7 @@ class Gen:
                 y = r.random()
                 if y < 0.3 and int_names:
                     elem = self.scalar_node()
-                    fields.append(F(fname, N_array(elem, L_expr(self.length_expr(int_names)))))
+                    fields.append(F(fname, N_array(elem, L_expr(self.length_expr(int_names, fields)))))
                     self.feat("arr:expr")
                 elif y < 0.5:
                     ek = r.random()
